@@ -17,7 +17,7 @@ use serde_json::{json, Value};
 use std::collections::{BTreeMap, BTreeSet};
 use std::time::Instant;
 
-pub const CLASSES: [&str; 26] = [
+pub const CLASSES: [&str; 27] = [
     "included:broken-template-used-anonymously",
     "missing:enoent-at-realpath",
     "missing:vanishes-after-realpath",
@@ -40,6 +40,7 @@ pub const CLASSES: [&str; 26] = [
     "anon:in-function",
     "anon:wrong-input-count",
     "anon:unknown-input-name",
+    "anon:surplus-named-input",
     "anon:as-main",
     "params:duplicate-names",
     "dup-def",
@@ -62,10 +63,16 @@ fn build_base(seed: u64, i: usize) -> Base {
     let mut r_plan = base.sub("plan");
     let mut knobs = Knobs::random(&mut r_proj);
     knobs.dup_params = false;
-    let shape = ProjectShape { max_files: 3, max_defs: 5, with_main: true, pragma_always: true, name_suffix: String::new() };
+    let shape = ProjectShape { max_files: 3, min_defs: 1, max_defs: 5, with_main: true, pragma_always: true, name_suffix: String::new() };
     let mut project = gen::gen_project(&mut r_proj, &knobs, &shape);
     if r_proj.chance(1, 3) {
         project.named = (0..project.files.len()).collect();
+    }
+    // an option pair that changes nothing: the directory of the named files is also given as a
+    // library directory (projects that vendor their dependencies next to the circuits do this)
+    let mut r_libs = base.sub("libs");
+    if r_libs.chance(1, 5) {
+        project.libs = vec![r_libs.pick(&[".", "./", "@ROOT@"]).to_string()];
     }
     let style = Style::random(&mut r_style);
     let style_seed = r_style.next_u64();
@@ -273,7 +280,7 @@ fn plant(b: &Base, class: &'static str, rng: &mut Rng) -> Option<Planted> {
             let text = render_tokens(&toks, &b.style, b.style_seed);
             case.world.put(&target, &text);
         }
-        "tuple:arity-mismatch" | "anon:wrong-input-count" | "anon:unknown-input-name" => {
+        "tuple:arity-mismatch" | "anon:wrong-input-count" | "anon:unknown-input-name" | "anon:surplus-named-input" => {
             if templates_in_target.is_empty() {
                 return None;
             }
@@ -298,6 +305,14 @@ fn plant(b: &Base, class: &'static str, rng: &mut Rng) -> Option<Planted> {
                     if class == "anon:wrong-input-count" {
                         let n = t.inputs.len() + 1 + rng.usize(2);
                         let args: Vec<String> = (0..n).map(|k| format!("{k}")).collect();
+                        raw(&format!("signal tpq <== {} ( {} ) ( {} ) ;", t.name, params.join(" , "), args.join(" , ")))
+                    } else if class == "anon:surplus-named-input" {
+                        // every declared input is named, and one more: an unknown or a repeated name
+                        let op = |rng: &mut Rng| if rng.chance(1, 3) { "<--" } else { "<==" };
+                        let mut args: Vec<String> = t.inputs.iter().map(|x| format!("{} {} 1", x.name, op(rng))).collect();
+                        let extra = if rng.chance(1, 2) { "no_such_input".to_string() } else { t.inputs[rng.usize(t.inputs.len())].name.clone() };
+                        let at = rng.usize(args.len() + 1);
+                        args.insert(at, format!("{extra} {} 2", op(rng)));
                         raw(&format!("signal tpq <== {} ( {} ) ( {} ) ;", t.name, params.join(" , "), args.join(" , ")))
                     } else {
                         let mut args: Vec<String> = t.inputs.iter().map(|x| format!("{} <== 1", x.name)).collect();
